@@ -224,6 +224,10 @@ class _MCQuad(torch.autograd.Function):
         # _mcquad takes the object parameters of log_pfcn from the object, so
         # the object must hold the tensors of the forward call here (it might
         # have been given other tensors since then)
+        # a method given in bck_options takes the place of the forward method
+        # (neither draws samples here: xsamples is set)
+        bck_config = dict(ctx.bck_config)
+        bck_method = bck_config.pop("method", ctx.method)
         with log_pfcn.useobjparams(pobjparams):
             aug_epfs = _mcquad(aug_function, log_pfcn,
                                x0=xsamples[0],  # unused because xsamples is set
@@ -231,9 +235,9 @@ class _MCQuad(torch.autograd.Function):
                                wsamples=wsamples,
                                fparams=(grad_epf, epf, *fptensor_params_copy),
                                pparams=pparams,
-                               method=ctx.method,
+                               method=bck_method,
                                bck_options=ctx.bck_config,
-                               **ctx.bck_config)
+                               **bck_config)
         dLdthetaf = aug_epfs[:nftensorparams]
         dLdthetap = aug_epfs[nftensorparams:]
 
